@@ -301,6 +301,15 @@ def property_fails_on(op, impl):
             gotc = [] if m.group(3) == "-" else m.group(3).split("+")
             if sorted(gotc) != sorted(clients):
                 return "channel view lists clients %s; the responding nodes report %s" % (sorted(gotc), sorted(clients))
+    if kind == "node":
+        m = re.match(r"(\S+) (-?\d+) (-?\d+) T\[", body)
+        st = stats_of(w, req["a"], "")
+        if m and st is not None:
+            tm = w64(sum(t["msg"] for t in st))
+            tc = sum(1 for t in st for c in t["channels"] if c is not None for k in c["clients"] if k is not None)
+            if int(m.group(2)) != tm or int(m.group(3)) != tc:
+                return "node view of %s shows total_messages=%s total_clients=%s; its topics report %d messages and %d clients" % (
+                    req["a"], m.group(2), m.group(3), tm, tc)
     if kind == "counter":
         prods, _, _ = stage1(req, w)
         exp = {}
